@@ -416,13 +416,7 @@ theorem srun_creates : ∀ (k : Nat) (s s' : SOP), srun s (List.replicate k .cre
 
 /-! ### a concrete byte memory -/
 
-/-- the stores executed on a concrete byte memory: `memcpy` copies byte by byte (source read
-before the call), an allocator store of a header word writes bytes `junk x` (whatever the
-word's bytes are: the theorems hold for every `junk`) -/
-def execJ (junk : Nat → Nat) : Mem → List Ev → Mem
-  | m, [] => m
-  | m, .w a n :: es => execJ junk (fun x => if a ≤ x ∧ x < a + n then junk x else m x) es
-  | m, .cp d s n :: es => execJ junk (fun x => if d ≤ x ∧ x < d + n then m (s + (x - d)) else m x) es
+-- (`execJ`: since round 3b in Model.lean, run by the driver)
 
 /-- the concrete run is one of the memories the event semantics admits -/
 theorem exec_execJ (junk : Nat → Nat) : ∀ (evs : List Ev) (m : Mem), Exec m evs (execJ junk m evs) := by
